@@ -241,6 +241,9 @@ func c16Accesses(r *Run, g *G, h c16Hier, k int) []c16Access {
 		add("isinstance.tuple", fmt.Sprintf("rec('isinstance(%s(), (C0, C%d))', lambda: isinstance(%s(), (C0, C%d)))", ci, h.n-1, ci, h.n-1))
 		add("getattr.forms", fmt.Sprintf("rec('getattr(%s(), x)', lambda: (getattr(%s(), 'x', 'dflt'), hasattr(%s(), 'x'), hasattr(%s(), 'zz'), t(lambda: getattr(%s(), 'zz'))))", ci, ci, ci, ci, ci))
 	}
+	// isinstance over the built-in exception hierarchy and a class derived from it
+	add("isinstance.exceptions", "rec('isinstance exceptions', lambda: (isinstance(KeyError('k'), LookupError), isinstance(KeyError('k'), KeyError), isinstance(KeyError(), ValueError), isinstance(ZeroDivisionError(), (TypeError, ArithmeticError)), isinstance(5, Exception), isinstance(Exception, Exception)))")
+	add("isinstance.user-exception", "class XE(LookupError):\n    pass\nrec('isinstance user exception', lambda: (isinstance(XE('a'), LookupError), isinstance(XE('a'), XE), isinstance(XE('a'), KeyError), isinstance(KeyError('a'), XE), XE('a', 2).args))")
 	// writes and deletes: only the object they are applied to changes
 	if k < 0 {
 		k = g.N(h.n)
